@@ -346,6 +346,9 @@ fn insertion(ctx: &mut Ctx, rng: &mut Rng, x: &Series, y: &Series) {
                         ctx.violation(&format!("{name}/null_insertion"), || format!("{:?} before vs {:?} after inserting nulls; {}", p, q2, d()));
                     } else {
                         ctx.count("insertion_ok");
+                        if x.len() > 2 && p.iter().any(|o| !o.null) {
+                            ctx.sample(|| format!("{} : unchanged by the insertion ({:?})", d(), p));
+                        }
                         ctx.count(&format!("insertion_ok.{name}"));
                         if p.iter().any(|o| !o.null) {
                             ctx.distinct(&format!("ins|{name}|{}|{how}|{use_opt}|{}", x.len().min(24), a.mp));
